@@ -35,6 +35,8 @@ Alpha == << [s |-> "P",   t |-> "li t0, 1"],
             [s |-> "RR",  t |-> "jr ra"],
             [s |-> "H2",  t |-> "la t2, L2\n    csrrw zero, 5, t2"],
             [s |-> "U",   t |-> "uret"],
+            [s |-> "JT1", t |-> "jal t0, K1"],        \* a jump that links into a register other than ra
+            [s |-> "JT2", t |-> "jal t1, K2"],
             [s |-> "A",   t |-> "la t1, D1"],
             [s |-> "CD",  t |-> "call D1"] >>
 NA == Len(Alpha)
